@@ -129,6 +129,11 @@ def main(tier, replay=None):
     for pid in b.order:
         m = b.meta[pid]
         if "fault" not in m:
+            # hypotheses of the theorems of Props/C06.v, decided on every generated program by the extracted reference
+            if m.get("fellback") == "true" or m.get("nodup_nids", "true") != "true":
+                viol("generated program %s: generator fell back / node ids not pairwise different" % pid,
+                     {"kind": "correspondence", "correspondence": "Gen.gen_program / Walk.nodup_nids",
+                      "request": req_of[pid.rsplit(".", 1)[0]]}, no_failing_input=True)
             continue
         basepid = pid.rsplit(".", 1)[0]
         o = impl.get(pid)
